@@ -77,3 +77,6 @@ void ref_cmac_subkeys(const BlockCipher &c, uint8_t k1[16], uint8_t k2[16]);
 void ref_xcbc_keys(const uint8_t key[16], uint8_t k1[16], uint8_t k2[16], uint8_t k3[16]);
 // state words of the hash after absorbing one block (key xor pad), in host word order; returns byte count
 size_t ref_hmac_pad_state(HashId h, const uint8_t *key, size_t key_len, uint8_t pad, uint8_t *out);
+void ref_sm3_init(uint32_t st[8]);
+void ref_sm3_compress(uint32_t V[8], const uint8_t block[64]);
+bool ref_sm3_selfcheck(); // compression function + hand padding == libcrypto SM3
